@@ -181,6 +181,33 @@ def solver_equiv_case(case):
     return out
 
 
+def shadow_names():
+    """Names that are visible in the namespace the solver evaluates equations in (module-level names of equation_solver.py) and that the
+    parser does not refuse as variable names: a variable may carry such a name, and reduction must not change what it means."""
+    import sfc_models.equation_solver as ES
+    from sfc_models.utils import get_invalid_variable_names
+    bad = set(get_invalid_variable_names())
+    return sorted(n for n in vars(ES) if n.isidentifier() and not n.startswith('__') and n not in bad and not n.startswith('SYM_'))
+
+
+def shadow_case(name):
+    """Block with a variable called `name` in an alias chain; solved with reduction on and off (concrete values: outcome comparison)."""
+    text = "y = 2*G\n%(n)s = y\na = %(n)s\nb = a + 1\nexogenous\nG = [2., 1., 3.]\nMaxTime = 2" % dict(n=name)
+    res = []
+    for reduce in (True, False):
+        es = EquationSolver(run_equation_reduction=reduce)
+        try:
+            es.ParseString(text)
+            es.SolveEquation()
+            res.append({v: list(es.TimeSeries[v]) for v in es.TimeSeries})
+        except (NameError, ValueError) as e:
+            res.append('refused: %s' % type(e).__name__)
+        except Exception as e:
+            res.append('crashed: %r' % (e,))
+    ok = res[0] == res[1] and not str(res[0]).startswith('crashed')
+    return {'name': name, 'ok': ok, 'detail': 'reduction on: %s | reduction off: %s' % (str(res[0])[:200], str(res[1])[:200])}
+
+
 REPLAY_SOLVER = '''
 import sys
 from fractions import Fraction as F
@@ -273,6 +300,15 @@ def run(tier, seed):
             chk.ob('sat' if o['viol'] else 'unsat', what, distinct=('solver-equiv',) + tuple(o['case']))
         if o['viol']:
             chk.violation('solver-equiv:%s:%s' % (o['name'], 'traced' if o['case'][1] else 'plain'), what + ': ' + o['viol']['why'], REPLAY_SOLVER % dict(case=o['case'], g=o['viol']['g']))
+    for nm in shadow_names():
+        r = shadow_case(nm)
+        chk.obligations += 1
+        chk.count('shadow_name_cases')
+        if r['ok']:
+            chk.discharged += 1
+        else:
+            chk.violation('shadowing-variable-name', 'a variable named %r (a module-level name of the solver): %s' % (nm, r['detail']),
+                          'import sys\nfrom vf.props.c03 import shadow_case\nr = shadow_case(%r)\nprint(r)\nsys.exit(0 if r["ok"] else 1)\n' % nm)
     chk.bounds['k>=1 through the solver'] = ('%d (block of the generated family, step tracing off / on) pairs: the real solver with reduction on and off, exogenous values of '
                                              'k = 1, 2 symbolic reals in [-100,100], every variable equal in every period up to 1e-5 relative (the unreduced run iterates alias chains to its tolerance)' % len(scases))
     chk.bounds['k=0 generated family'] = ('%d of %d generated blocks (one / two alias chains rooted in constant, exogenous, lagged, dynamic, initial-conditioned variable; '
